@@ -467,6 +467,9 @@
        (and (avlT (i_left t)) (avlT (i_right t)) (<= (- 1) (balf t)) (<= (balf t) 1))
        true))
 ;@specfn avlT : T -> Bool
+; fib: Fibonacci numbers (fib 0 = 0, fib 1 = 1); an AVL tree of height h has at least fib(h+2) leaves
+(define-fun-rec fib ((n Int)) Int (ite (<= n 0) 0 (ite (= n 1) 1 (+ (fib (- n 1)) (fib (- n 2))))))
+;@specfn fib : Int -> Int
 ; outcome of the last call of nodeDB.shouldForceFastStorageUpgrade (ghost; its label parsing — strings.Split, strconv — is outside the translated subset)
 ;@ghost forceflag Bool
 ; call counters (ghost): number of calls of extractStateChanges / of nodeDB.SaveNode so far
